@@ -33,6 +33,7 @@ func runC02(r *mon.Run) {
 	m := bigN
 	api.runCommon(r, r.N(30000, 1500000), r.N(9000, 300000), r.N(9000, 450000), r.N(9000, 450000))
 	api.runFiat(r, r.N(18000, 900000))
+	api.runHistories(r, r.N(150, 8000))
 	if !hk.HaveCore {
 		r.Note("core hooks unavailable: operands are built through the canonical decoder only; raw-limb invariants not observed")
 	}
